@@ -193,6 +193,12 @@ def normalise(F, fn, keep=(), depth=3, _stack=()):
                     and ("owned-helpers-only" not in keep or owned_by(F, g, fn, _stack)):
                 sites.append((bb, "helper", g))
                 continue
+            # `defined(x)` on a local closure: the call is resolved to the closure's own body (callee = the closure), with the
+            # argument shape of Fn::call (closure, (args,))
+            if c.get("local") and g is not None and "{closure" in g.path and g.crate == fn.crate and g.id != fn.id and g.id not in _stack \
+                    and depth > 0 and len(t["args"]) == 2 and len(g.raw["blocks"]) <= 400:
+                sites.append((bb, "closure-call", g))
+                continue
             cs = c.get("closure_self")
             if cs and F.fns.get(cs["id"]) is not None and depth > 0 and cs["id"] not in _stack and p.endswith(("::call_once", "::call_mut", "::call")):
                 sites.append((bb, "closure-call", F.fns[cs["id"]]))
